@@ -9,6 +9,8 @@ let p3 ((a, b), c) = Printf.printf " %h %h %h" a b c
 let psym (d, l) = p3 d; p3 l
 let psv (a, b) = p3 a; p3 b
 
+(* argument "guarded": use the recursion with the repair of patches/C15_cbi_massless_chain.diff (zero-mass child composites skipped) *)
+let guarded = Array.length Sys.argv > 1 && Sys.argv.(1) = "guarded"
 let () =
   let bodies = ref [] and raw = ref [] and haveacc = ref false in
   let finish () =
@@ -29,7 +31,7 @@ let () =
     Printf.printf "OUT MOM"; psv (calcSystemMomentumAboutGroundOrigin fops bs); print_newline ();
     Printf.printf "OUT CMOM"; psv (calcSystemCentralMomentum fops bs); print_newline ();
     Printf.printf "OUT KE %h\n" (calcKineticEnergy fops bs);
-    let cb = List.sort (fun (a, _) (b, _) -> compare a b) (List.map (fun (i, r) -> (int_of_nat i, r)) (out_cbi fops cl)) in
+    let cb = List.sort (fun (a, _) (b, _) -> compare a b) (List.map (fun (i, r) -> (int_of_nat i, r)) ((if guarded then out_cbiG else out_cbi) fops cl)) in
     List.iter (fun tag -> List.iter (fun (i, ((m, p), g)) -> Printf.printf "OUT %s %d %h" tag i m; p3 p; psym g; print_newline ()) cb) ["CBI"; "CBIC"];
     print_endline "END" in
   try while true do
